@@ -58,6 +58,9 @@ GROUPS = {
     # used with instances of several classes (per-call-site inference)
     "attrs": dict(Kinds={"class"}, Ops={"bind", "instattr", "helperattr"}, ScopeNames=set(), replay_all=True,
                   quick=({"a"}, 3, 4), thorough=({"a"}, 4, 4)),
+    # the same references for classes that define __new__ (instances obtained by calling the class)
+    "newattrs": dict(Kinds={"class", "function"}, Ops={"bind", "use", "instattr", "helperattr"}, ScopeNames=set(),
+                     Roles={"new"}, replay_all=True, quick=({"a"}, 3, 3), thorough=({"a"}, 4, 3)),
     "core2": dict(Kinds={"function", "class"}, Ops=CORE, ScopeNames=set(),
                   quick=({"a", "b"}, 2, 4), thorough=({"a", "b"}, 3, 4)),
     "defnames": dict(Kinds={"function", "class"}, Ops={"bind", "use", "global", "nonlocal", "param"},
@@ -592,6 +595,12 @@ class _Renderer:
         role = sc.get("role", "plain")
         if role != "plain":
             # __init__ / __call__: called through the class (see klass)
+            if role == "new":
+                # the singleton / factory idiom: rope cannot infer what __new__ returns
+                self.r.head[s] = self.emit(indent, ["def __new__(cls, *_a, **_k):"])
+                self.body(s, indent + 4)
+                self.r.last[s] = self.emit(indent + 4, ["return object.__new__(cls)"])
+                return
             mname = {"init": "__init__", "call": "__call__"}[role]
             self.r.head[s] = self.emit(indent, ["def ", mname, "(self"] + ([", "] + head if head else []) + ["):"])
             self.body(s, indent + 4)
